@@ -104,8 +104,10 @@ where
 
         // Rotate any desugared modifiers to the end of the list
         let modifiers = ["inv", "omit_fwd", "omit_inv"];
-        while modifiers.contains(&elements[0]) {
+        let mut rotations = elements.len();
+        while rotations > 0 && modifiers.contains(&elements[0]) {
             elements.rotate_left(1);
+            rotations -= 1;
         }
 
         for element in elements {
